@@ -21,7 +21,7 @@ import os
 import sys
 
 from ..core.seeds import stream
-from .universe import STRESS, context_params, generated_request, get_func, make_context, print_options, req_key
+from .universe import STRESS, context_params, decode_sig, generated_request, get_func, make_context, print_options, req_key
 
 
 class InjectedFault(BaseException):
@@ -114,7 +114,9 @@ def gen_history(seed, universe, cfg):
                 # the same graph printed with another target from the same context
                 t2 = rq.choice([x for x in cfg["reprint_targets"] if x != t] or [t])
                 narrow = any(x in (":float32", ":complex64") for x in r["sig"])
-                if not (t2 == "cpp" and r["func"].startswith("gen:") and narrow):  # see universe.generated_request
+                if t2 == "python" and r["func"] == "stress_literal_infinities":
+                    pass  # the python target prints a literal infinity as the bare name `inf` (not claimed, see universe)
+                elif not (t2 == "cpp" and r["func"].startswith("gen:") and narrow):  # see universe.generated_request
                     acts.append(["reprint", last[1], t2, rq.choice(cfg.get("debug_levels", {}).get(t2, [0]))])
             threads.append(acts)
         else:
@@ -373,7 +375,7 @@ class Executor:
             req = self.reqs[rid] = dict(rid=rid, cid=cid, target=target, func=func, sig=list(sig), g=None, stage="new", ctx=ctx,
                                         params=self.ctx_params.get(cid),
                                         prior=list(self.ctx_hist[cid]), interleaved=False)
-            fn = lambda: ctx.trace(get_func(fa, func), *sig)  # noqa: E731
+            fn = lambda: ctx.trace(get_func(fa, func), *decode_sig(sig))  # noqa: E731
             self.guarded(req, "traced", fn, fault)
             if req["stage"] == "traced":
                 self.ctx_hist[cid].append(req_key(req))
@@ -418,6 +420,8 @@ class Executor:
                            rep=req["prints"], pos=self.pos, sha=hashlib.sha256(text.encode()).hexdigest(), env=self.env.active,
                            after_abort=self.last_aborted, tmp_counter=tmp_before, target=req["target"], debug=debug)
                 self.last_aborted = False
+                if req["func"].startswith("gen:"):
+                    rec["req"] = dict(target=req["target"], func=req["func"], sig=req["sig"], params=req.get("params"))
                 self.log.ev("text", rec["key"], rec["sha"][:16])
                 if self.on_text is not None:
                     self.on_text(rec, text, req)
